@@ -22,6 +22,8 @@ type orC16 struct {
 	masterHist []lagSample
 	masters    []string
 	lastChange time.Duration // last instant at which any health/streaming class changed (for the final check)
+	swAt       time.Duration // when the pending switch request was filed
+	haFailed   int           // calls to HA members that failed or were not answered since then
 }
 
 func (o *orC16) name() string { return "C16" }
@@ -252,6 +254,9 @@ func keys(m map[string]bool) []string {
 func (o *orC16) onSQL(e *SQLEvent) {
 	m := o.m
 	s := m.s
+	if m.primary["C16"] && m.isDaemon(e.Src) && !m.isCascade(e.Dst) && !e.toldOK() && !e.Pending {
+		o.haFailed++
+	}
 	if !m.primary["C16"] || !e.Applied || !m.isDaemon(e.Src) {
 		return
 	}
@@ -334,6 +339,38 @@ func (o *orC16) onZK(e *ZKEvent) {
 		if m.isCascade(h) {
 			m.violate("C16", "promoted", "cascade-replica-recorded-as-master", fmt.Sprintf("%s recorded cascade replica %s as master", e.Inc, h))
 		}
+	case e.Path == "/test/switch" && e.Op == "create" && !m.isDaemon(e.Inc):
+		o.swAt, o.haFailed = m.s.now(), 0
+	case e.Path == "/test/last_switch" && (e.Op == "set" || e.Op == "create") && m.isDaemon(e.Inc):
+		nowMs := int64(m.s.now() / time.Millisecond)
+		for _, f := range m.s.spec.StmtFail {
+			if m.isCascade(f.Host) && f.FromMs <= nowMs && nowMs < f.ToMs && strings.HasPrefix("SELECT 1 AS Ok", f.Prefix) {
+				m.probe("c16_master_changed_while_cascade_refuses_logins")
+				break
+			}
+		}
+	case e.Path == "/test/last_rejected_switch" && (e.Op == "set" || e.Op == "create") && m.isDaemon(e.Inc):
+		// the HA group decides about its master alone: with every HA member healthy and reachable
+		// from the request to the rejection, nothing a cascade replica does may make it fail
+		sw := parseSwitch(e.Data)
+		if sw == nil || sw.Cause == "auto" || o.swAt == 0 || o.haFailed > 0 || m.s.net.zkDown {
+			return
+		}
+		now := m.s.now()
+		from := o.swAt - ms(m.s.spec.Cfg.TickMs)
+		it := m.iters[e.Inc]
+		if it != nil && it.open && it.startT < from {
+			from = it.startT // the rejecting pass may have looked at the members before the request appeared
+		}
+		for _, h := range m.s.zk.children("/test/ha_nodes") {
+			if o.healthClass(h, from, now, it) != 1 {
+				return
+			}
+			if sv := m.s.mysql.servers[h]; sv == nil || sv.lastWorldChange >= from {
+				return
+			}
+		}
+		m.violate("C16", "vetoed", "switchover-rejected-although-every-ha-member-healthy", fmt.Sprintf("%s rejected %s although every HA member was healthy, replicating and answered every call since the request was filed at %v", e.Inc, e.Data, o.swAt))
 	case e.Path == "/test/switch" && e.Op == "create" && m.isDaemon(e.Inc):
 		sw := parseSwitch(e.Data)
 		it := m.iters[e.Inc]
